@@ -16,9 +16,9 @@ var c12Lit *eng.Kind[LitCase]
 
 func init() {
 	c := eng.Register(&eng.Check{
-		ID:    "C12",
-		Title: "Numeric literals denote exactly the decimal number written",
-		Rule: "every string up to n characters over {0 5 . e + - _ a x} that begins with a digit or '.', and long literals (integer / fraction parts of every length 0..40 in three digit patterns, exponents with up to 40 digits of which at most 3 significant, a separator at every single position of shorter literals): the reference number automaton of the statement decides reject or the exact decimal value; the implementation must agree on accept/reject, on the tree, and on the evaluated value in the contexts [L], [-L], [f(L)], [x?L:L], [(L,L)], [L,L]; distinct = distinct exact values (or 'reject')",
+		ID:          "C12",
+		Title:       "Numeric literals denote exactly the decimal number written",
+		Rule:        "every string up to n characters over {0 5 . e + - _ a x} that begins with a digit or '.', and long literals (integer / fraction parts of every length 0..40 in three digit patterns, exponents with up to 40 digits of which at most 3 significant, a separator at every single position of shorter literals): the reference number automaton of the statement decides reject or the exact decimal value; the implementation must agree on accept/reject, on the tree, and on the evaluated value in the contexts [L], [-L], [f(L)], [x?L:L], [(L,L)], [L,L]; distinct = distinct exact values (or 'reject')",
 		TrustedBase: []string{"internal/ref/tok.go number automaton", "internal/ref/dec.go"},
 		Assumptions: []string{"exponents beyond 9 significant digits are not enumerated"},
 		Run:         runC12,
